@@ -568,6 +568,8 @@ def run(ctx):
     for f in sorted([g for g in P.fns.values() if g.short == 'overflow' and 'file_buffer' in (g.record or '') and g.body is not None], key=lambda g: g.id):
         nb_ = q.narrowed_char_eof_tests(f)
         ctx.check(not nb_, R8, 'file_buffer::overflow:EOF-tested-on-the-int', 'the overflowing character is compared with EOF after narrowing to char: byte 0xFF of an upload is dropped', f.loc(nb_[0]) if nb_ else f.where)
+        dr_ = q.overflow_drops_char(f)
+        ctx.check(not dr_, R8, 'file_buffer::overflow:takes-the-character', 'overflow(c) can report success without having taken c (neither stored, put nor handed on, and c was not EOF): the byte that did not fit is lost', f.loc(dr_[0]) if dr_ else f.where)
     ctx.require(n8 >= 2 or ctx.violations, 'C12.R8: file_buffer::underflow / pbackfail not found')
     ctx.floor(R8, 2)
     ctx.floor(R6, 2)
